@@ -71,6 +71,13 @@ impl Cfg {
             let v: Vec<VarLabel> = self.order.iter().map(|&x| VarLabel::new(x as u64)).collect();
             return VarOrder::new(&v);
         }
+        // pool 3 / 4: the whole manager in label order / reversed label order (level = label resp.
+        // width - 1 - label): the mapped labels sit at levels on both sides of the 2^8 and 2^16 boundaries
+        if self.pool == 3 || self.pool == 4 {
+            let w = self.manager_vars();
+            let v: Vec<VarLabel> = (0..w).map(|x| VarLabel::new(if self.pool == 3 { x } else { w - 1 - x } as u64)).collect();
+            return VarOrder::new(&v);
+        }
         // wide manager: the mapped labels keep the relative order `order`, spread evenly among
         // the other labels (which stay in increasing order)
         let nn = self.labels.iter().max().unwrap() + 1;
@@ -91,6 +98,10 @@ impl Cfg {
     }
     /// number of variables of the manager at construction
     pub fn manager_vars(&self) -> usize {
+        if self.pool == 3 || self.pool == 4 {
+            // a few unused levels beyond the last mapped label
+            return self.labels.iter().max().unwrap() + 10;
+        }
         if self.labels.is_empty() { self.n } else { self.labels.iter().max().unwrap() + 1 }
     }
 }
@@ -1331,6 +1342,11 @@ pub fn run_all(ctx: &Ctx) -> Report {
     let mut rep = Report::new(
         "BDD-builder histories on the real code against truth tables: R2 = in one builder per configuration (order x cache kind/capacity x table capacity) all 256 functions of 3 variables are built and every ordered pair is combined by and/or/xor/iff, every function conditioned / quantified / conditioned on all 27 partial models / composed with every function on every variable, ite over all triples of a pool (all 256^3 in thorough), lists, and the same again after new_var; R1 = every history of <= d operations over n = 2 in a fresh builder; a case is distinct if it is a different (configuration, operation, arguments) triple and non-trivial if the result is not a constant",
     );
+    if std::env::var("VERIF_ONLY").map(|v| v == "midscale").unwrap_or(false) {
+        // development aid (never set by the registered commands): the mid-scale regime alone
+        rep.merge(crate::props::bddmid::run(ctx));
+        return rep;
+    }
     // R2, n = 3
     let orders = permutations(3);
     let items: Vec<(usize, Vec<usize>)> = orders.into_iter().enumerate().collect();
@@ -1406,6 +1422,12 @@ pub fn run_all(ctx: &Ctx) -> Report {
         rep.add_extra("R5_operations", r5.transitions);
         rep.merge(r5);
     }
+    // Rmid: rule-defined operand families over 8 (10) variables, see bddmid.rs
+    {
+        let rm = crate::props::bddmid::run(ctx);
+        rep.add_extra("Rmid_operations", rm.transitions);
+        rep.merge(rm);
+    }
     rep.floor("R2: unique-table growths", growths, 1);
     rep.floor("R2: complemented roots seen", compl, 1);
     // R1, n = 2
@@ -1467,6 +1489,7 @@ pub fn replay_for(ctx: &Ctx, prop: &str, case: &Value) -> Report {
                 rep.merge(r);
             }
         }
+        Some("bdd_mid") => rep.merge(crate::props::bddmid::replay(ctx, case)),
         Some("bdd_r1") => {
             if let Some(cfg) = Cfg::from_json(&case["cfg"]) {
                 let hist: Vec<A1> = case["history"]
